@@ -133,20 +133,21 @@ extern "C" void h_eps_identity(void) {
 extern "C" void h_eps_krw_vertical(void) {
     Table t = mktable(); auto eff = mkeff(t);
     auto cfg = std::make_shared<Opm::EclEpsConfig>(); cfg->setEnableKrwScaling(true); cfg->setEnableThreePointKrwScaling(THREEPT);
-    double kw[3], kn[3], pc[2] = { 0, 1 }; ordered3(kw); ordered3(kn);
+    cfg->setEnableSatScaling(true); cfg->setEnableThreePointKrSatScaling(THREEPT);          // the cell's saturation end-points differ from the table's
+    double kw[3], kn[3], skw[3], pc[2] = { 0, 1 }; ordered3(kw); ordered3(kn); ordered3(skw);
     double ukrwr = verif_nondet_real(), umax = verif_nondet_real(), skrwr = verif_nondet_real(), smax = verif_nondet_real();
     ASSUME(ukrwr > 0 && umax > ukrwr && skrwr > 0 && smax >= skrwr);
-    auto un = std::make_shared<Pts>(); setpts(*un, kw, kn, pc, umax, 1, ukrwr, 0.5, 1); Pts sc; setpts(sc, kw, kn, pc, smax, 1, skrwr, 0.5, 1);
+    auto un = std::make_shared<Pts>(); setpts(*un, kw, kn, pc, umax, 1, ukrwr, 0.5, 1); Pts sc; setpts(sc, skw, kn, pc, smax, 1, skrwr, 0.5, 1);
     EpsParams P; P.setConfig(cfg); P.setUnscaledPoints(un); P.setScaledPoints(sc); P.setEffectiveLawParams(eff); P.finalize();
     double s = verif_nondet_real(); ASSUME(s >= 0 && s <= 1);
-    double ku = Eff::twoPhaseSatKrw(*eff, s), ks = Eps::twoPhaseSatKrw(P, s);
+    double ku = Eff::twoPhaseSatKrw(*eff, Eps::scaledToUnscaledSatKrw(P, s)), ks = Eps::twoPhaseSatKrw(P, s);      // table value at the mapped saturation
 #if !THREEPT
     CEQ(ks * umax, ku * smax);                                    // pure vertical scaling by KRW / KRW(table)
 #else
-    if (!(s > kw[1])) CEQ(ks * ukrwr, ku * skrwr);                  // left of the displacing critical saturation: scaled by KRWR / KRWR(table)
+    if (!(s > skw[1])) CEQ(ks * ukrwr, ku * skrwr);                 // left of the CELL's displacing critical saturation: scaled by KRWR / KRWR(table)
     else { CEQ((ks - skrwr) * (umax - ukrwr), (ku - ukrwr) * (smax - skrwr)); }   // right: linear between (KRWR, KRW) in terms of the table value
-    if (ku == umax && s > kw[1]) CEQ(ks, smax);
-    if (ku == ukrwr && s > kw[1]) CEQ(ks, skrwr);
+    if (ku == umax && s > skw[1]) CEQ(ks, smax);
+    if (ku == ukrwr && s > skw[1]) CEQ(ks, skrwr);
 #endif
 }
 
